@@ -19,6 +19,7 @@ import (
 	"sort"
 	"strings"
 	"sync"
+	"syscall"
 	"testing"
 	"time"
 
@@ -60,6 +61,10 @@ type Scenario struct {
 	Prefix   []int         `json:"prefix,omitempty"`
 	Seed     int64         `json:"seed,omitempty"`
 	Choices  []int         `json:"choices,omitempty"`
+	// Policy directs the schedule of the tail instead of drawing it: "holdmap" runs operation 1 up to the point right
+	// after it took its snapshot of the reference map (resolver.Map), then operation 2 to its end, then the rest -
+	// the window in which a save of index.json works from a stale snapshot
+	Policy string `json:"policy,omitempty"`
 }
 
 var refs = []string{"t1", "t2", "v1.0"}
@@ -102,7 +107,7 @@ func (r *runner) nodeOf(d ocispec.Descriptor) int { return r.g.NodeOf(d) }
 // observe reads everything observable from a store.
 func (r *runner) observe(ctx context.Context, st readStore, kind string) map[string]any {
 	g := r.g
-	var exists, fetchok, byindex, byblob, existsplain, fetchplain []int
+	var exists, fetchok, byindex, byblob, existsplain, fetchplain, notplain []int
 	for k := 1; k <= g.N; k++ {
 		if ok, _ := st.Exists(ctx, r.desc[k]); ok {
 			exists = append(exists, k)
@@ -122,6 +127,11 @@ func (r *runner) observe(ctx context.Context, st readStore, kind string) map[str
 					byindex = append(byindex, k)
 				} else {
 					byblob = append(byblob, k)
+				}
+				// "if the reference is a digest, the returned descriptor will be a plain descriptor (containing only the
+				// digest, media type and size)" - in every way a layout can be opened
+				if len(d.Annotations) != 0 || len(d.URLs) != 0 || len(d.Data) != 0 || d.Platform != nil || d.ArtifactType != "" {
+					notplain = append(notplain, k)
 				}
 			}
 		}
@@ -149,7 +159,7 @@ func (r *runner) observe(ctx context.Context, st readStore, kind string) map[str
 		}
 	}
 	return map[string]any{"exists": vh.Ints(exists), "fetchok": vh.Ints(fetchok), "byindex": vh.Ints(byindex), "byblob": vh.Ints(byblob),
-		"tags": tags, "pred": pred, "taglist": taglist, "existsplain": vh.Ints(existsplain), "fetchplain": vh.Ints(fetchplain)}
+		"tags": tags, "pred": pred, "taglist": taglist, "existsplain": vh.Ints(existsplain), "fetchplain": vh.Ints(fetchplain), "notplain": vh.Ints(notplain)}
 }
 
 // disk reads the raw OCI layout directory.
@@ -270,6 +280,16 @@ func (r *runner) reopen(ctx context.Context, mode string) {
 		mode = "rw"
 	case "fs":
 		st, err = oci.NewFromFS(ctx, os.DirFS(r.dir))
+	case "fsfault":
+		// the file system fails the first attempt to open a blob while the layout is loaded (too many open files):
+		// either loading fails, or the store shows the same state - never a store that silently lacks something
+		ff := &faultFS{FS: os.DirFS(r.dir), armed: true}
+		st, err = oci.NewFromFS(ctx, ff)
+		ff.disarm()
+		if err != nil {
+			return
+		}
+		mode = "fs"
 	case "tar", "tarupdated":
 		tp := filepath.Join(filepath.Dir(r.dir), fmt.Sprintf("layout-%d.tar", r.sc.ID))
 		var stale []byte
@@ -287,6 +307,28 @@ func (r *runner) reopen(ctx context.Context, mode string) {
 		return
 	}
 	r.tr.Emit(map[string]any{"e": "obs", "mode": mode, "o": r.observe(ctx, st, "oci")})
+}
+
+// faultFS fails the first Open below blobs/ while armed.
+type faultFS struct {
+	fs.FS
+	mu    sync.Mutex
+	armed bool
+}
+
+func (f *faultFS) disarm() { f.mu.Lock(); f.armed = false; f.mu.Unlock() }
+
+func (f *faultFS) Open(name string) (fs.File, error) {
+	f.mu.Lock()
+	hit := f.armed && strings.HasPrefix(name, "blobs/")
+	if hit {
+		f.armed = false
+	}
+	f.mu.Unlock()
+	if hit {
+		return nil, &fs.PathError{Op: "open", Path: name, Err: syscall.EMFILE}
+	}
+	return f.FS.Open(name)
 }
 
 // annSig is a canonical string of a descriptor's annotations without the reference name.
@@ -398,7 +440,7 @@ func RunOne(t *testing.T, sc *Scenario, tr *vh.Tracer, base string) bool {
 		}
 		tr.Emit(r.disk())
 		if sc.Reopen == "all" || last || op == "delete" || op == "gc" {
-			for _, m := range []string{"rw", "fs", "tar", "tarupdated", "rwcancel"} {
+			for _, m := range []string{"rw", "fs", "tar", "tarupdated", "rwcancel", "fsfault"} {
 				r.reopen(ctx, m)
 			}
 		} else {
@@ -575,6 +617,25 @@ func RunOne(t *testing.T, sc *Scenario, tr *vh.Tracer, base string) bool {
 	hang := ps.Run(func(step int, pend []*vh.POp) int {
 		if step < len(sc.Prefix) {
 			return sc.Prefix[step]
+		}
+		if sc.Policy == "holdmap" {
+			held := -1
+			for i, p := range pend {
+				if p.Idx == 0 && p.Name != "resolver.Map" {
+					return i // operation 1 goes on until it has its snapshot
+				}
+				if p.Idx == 0 {
+					held = i
+				}
+			}
+			for i, p := range pend {
+				if p.Idx != 0 {
+					return i // then the others run to their end
+				}
+			}
+			if held >= 0 {
+				return held
+			}
 		}
 		return rng.Intn(len(pend))
 	})
@@ -773,6 +834,31 @@ func genScenario(rng *rand.Rand, kind string) Scenario {
 			sc.Ops = ops
 			sc.Par = []Op{{Op: "push", N: shared[0]}, {Op: "push", N: shared[1]}}
 			return sc
+		}
+		if kind == "oci" && rng.Intn(5) == 0 {
+			// two manifests pushed at once: each push saves index.json (AutoSaveIndex); the later save must not be
+			// overwritten by an earlier snapshot
+			var mans []int
+			for k := 1; k <= n; k++ {
+				if vh.IsManifestKind(nodes[k].Kind) {
+					mans = append(mans, k)
+				}
+			}
+			if len(mans) >= 2 {
+				rng.Shuffle(len(mans), func(i, j int) { mans[i], mans[j] = mans[j], mans[i] })
+				var ops []Op
+				for _, o := range sc.Ops {
+					if !(o.N == mans[0] || o.N == mans[1]) || o.Op == "fetch" || o.Op == "exists" || o.Op == "pred" {
+						ops = append(ops, o)
+					}
+				}
+				sc.Ops = ops
+				sc.Par = []Op{{Op: "push", N: mans[0]}, {Op: "push", N: mans[1]}}
+				if rng.Intn(3) != 0 {
+					sc.Policy, sc.AutoSave = "holdmap", true
+				}
+				return sc
+			}
 		}
 		if kind == "oci" && rng.Intn(4) == 0 {
 			// a GC racing with a Tag (and a Push) of content it may be about to sweep
